@@ -113,6 +113,12 @@ pub fn exec(op: &str, a: &Value) -> Option<Value> {
             let d = PlainDate::try_new(f.0, f.1, f.2, iso())?;
             let t = if js::s(a, "tt") == "none" { None } else { Some(PlainTime::try_new(0, 0, 0, 0, 0, 0)?) };
             d.to_zoned_date_time_with_provider(time_zone_for(&z, false), t, &p) }, |x| rel_of_plain(x.epoch_nanoseconds().as_i128())),
+        // a property bag with date fields only, or with time fields that are all zero: midnight's wall-clock reading under the disambiguation option
+        "Zoned.fromBagDate" => run(|| { let f = fields_of(js::i(a, "day") * 86_400, 0);
+            let date = temporal_rs::partial::PartialDate::new().with_year(Some(f.0)).with_month(Some(f.1)).with_day(Some(f.2));
+            let time = if js::s(a, "tf") == "none" { temporal_rs::partial::PartialTime::new() } else { temporal_rs::partial::PartialTime::new().with_hour(Some(0)).with_nanosecond(Some(0)) };
+            let pz = temporal_rs::partial::PartialZonedDateTime::new().with_date(date).with_time(time).with_timezone(Some(time_zone_for(&z, false)));
+            ZonedDateTime::from_partial_with_provider(pz, None, Some(dis(a)), None, &p) }, |x| rel_of_plain(x.epoch_nanoseconds().as_i128())),
         // the same kind of string given as a relativeTo option
         "Zoned.relTo" => run(|| {
             let f = fields_of(js::i(a, "w"), SUB_NS);
